@@ -347,7 +347,7 @@ package commitlog
 //@   modifies nothing
 //@   ensures result == l.vActiveSegment
 
-//@ func (*commitLog).NewestOffset serves C01, C16, C02
+//@ func (*commitLog).NewestOffset serves C01, C16, C02, C10
 //@   requires l != nil && l.vActiveSegment != nil
 //@   modifies nothing
 //@   ensures result == nextOffset(l) - 1
@@ -539,7 +539,7 @@ package commitlog
 //@   assumes l.vActiveSegment != nil
 //@   call send.ch requires [the-end-is-announced-only-when-the-watermark-has-reached-the-log-end] arg1 && l.hw >= nextOffset(l) - 1
 //@   ensures [readers-below-a-lagging-watermark-stay-parked] old(l.hw) < old(nextOffset(l)) - 1 ==> l.hwWaiters == old(l.hwWaiters)
-//@ func (*commitLog).HighWatermark serves C03, C01
+//@ func (*commitLog).HighWatermark serves C03, C01, C10
 //@   requires l != nil
 //@   modifies nothing
 //@   ensures result == l.hw
@@ -759,14 +759,36 @@ package commitlog
 //@   ensures [first-above] idx < len(segments) ==> nextOf(segments[idx]) > offset
 //@   ensures [none-before] forall i int :: 0 <= i && i < idx ==> nextOf(segments[i]) <= offset
 
+//@ func findSegmentContains serves C10, C01, C03
+//@   returns (seg, contains)
+//@   assumes forall i int :: 0 <= i && i < len(segments) ==> segments[i] != nil
+//@   assumes forall i int, j int :: 0 <= i && i < j && j < len(segments) ==> nextOf(segments[i]) <= nextOf(segments[j])
+//@   modifies nothing
+//@   ensures [a-segment-that-contains-the-offset-is-there] contains ==> seg != nil && seg.BaseOffset <= offset && nextOf(seg) > offset
+//@   ensures [the-first-segment-ending-above-the-offset] seg != nil ==> (exists k int :: 0 <= k && k < len(segments) && seg == segments[k] && nextOf(seg) > offset && (forall i int :: 0 <= i && i < k ==> nextOf(segments[i]) <= offset))
+
 // committedReader.Read, reader parked beyond the watermark: after the watermark moved, reading resumes at the
 // message after the OLD watermark - in the segment that holds it, at that message's entry - so nothing that
 // became committed is skipped; the reader's watermark only moves forward.
+// (C10: "delivers exactly the committed messages in the requested range") A reader that was asked to start INSIDE the
+// uncommitted tail of the log (watermark < start offset <= newest offset: a leader whose followers lag) is parked too;
+// it resumes at its start offset once that offset is committed - not at the first message committed after it was
+// created, which lies before the requested range. resumeAt(hw, start) is where a parked reader goes on.
+//@ pure func resumeAt(hw int64, start int64) int64 = (start > hw + 1 ? start : hw + 1)
 //@ func (*committedReader).Read serves C03, C01, C10
 //@   requires r != nil && r.cl != nil
-//@   call (*segment).findEntry requires [resumes-after-old-hw] arg1 == old(r.hw) + 1
-//@   call (*segment).findEntry requires [in-the-segment-holding-it] forall k int :: 0 <= k && k < len(segments) && nextOf(segments[k]) > old(r.hw) + 1 && (forall i int :: 0 <= i && i < k ==> nextOf(segments[i]) <= old(r.hw) + 1) ==> arg0 == segments[k]
+//@   call (*segment).findEntry requires [resumes-after-old-hw-or-at-its-start-offset] arg1 == resumeAt(old(r.hw), old(r.start))
+//@   call (*segment).findEntry requires [only-once-that-offset-is-committed] arg1 <= r.hw
+//@   call (*segment).findEntry requires [in-the-segment-holding-it] forall k int :: 0 <= k && k < len(segments) && nextOf(segments[k]) > resumeAt(old(r.hw), old(r.start)) && (forall i int :: 0 <= i && i < k ==> nextOf(segments[i]) <= resumeAt(old(r.hw), old(r.start))) ==> arg0 == segments[k]
 //@   call getHWPos requires [limit-at-current-hw] arg1 == r.hw
+// newReaderCommitted: what a parked reader remembers. A start offset inside the log is kept; one beyond the end of the
+// log is capped (the reader gets the next committed message, start == -1), as is the start on an empty log.
+//@ func (*commitLog).newReaderCommitted serves C10
+//@   returns (rd, err)
+//@   requires l != nil
+//@   assumes l.vActiveSegment != nil && l.hw >= -1
+//@   ensures [C10:a-reader-started-in-the-uncommitted-tail-remembers-its-start-offset] err == nil && offset > old(l.hw) && offset <= old(nextOffset(l)) && len(l.segments) > 0 ==> isa(rd, "*committedReader") && unbox(rd, "*committedReader").seg == nil && unbox(rd, "*committedReader").hw == old(l.hw) && unbox(rd, "*committedReader").start == offset
+//@   ensures [C10:otherwise-a-parked-reader-goes-on-after-the-watermark] err == nil && isa(rd, "*committedReader") && unbox(rd, "*committedReader").seg == nil && !(offset > old(l.hw) && offset <= old(nextOffset(l))) ==> resumeAt(old(l.hw), unbox(rd, "*committedReader").start) == old(l.hw) + 1
 //@ func (*segment).ReadAt serves C03, C01, C08
 //@   returns (n, err)
 //@   requires s != nil
